@@ -29,6 +29,7 @@ Inductive op :=
 | ODischarge (dst src i enckey loc : N) (proof : bool) (l : list dcav)
 | OBind (d parent : N)
 | OVerify (s k : N) (ds : list N) (tr : list (N * list N)) (direct : bool)
+| OVerifyObjs (s k : N) (ds : list N) (tr : list (N * list N))   (* VerifyParsed on the live objects (token and discharges), no wire round trip *)
 | OSameWire (a b : N)
 | OSetTail (s : N) (x : tailx)
 | ODropCav (s i : N)
@@ -185,6 +186,14 @@ Definition step (σ : st) (o : op) : st * obs :=
       let dts := flat_map (fun d => match lookup d sl with Some x => [decode x] | None => [] end) ds in
       let trm := map (fun e => (fst e, map TKey (snd e))) tr in
       (σ, obs_verify (verify (TKey k) (if direct then t else decode t) dts trm))
+    end
+  | OVerifyObjs s k ds tr =>
+    match lookup s sl with
+    | None => (σ, [])
+    | Some t =>
+      let dts := flat_map (fun d => match lookup d sl with Some x => [x] | None => [] end) ds in
+      let trm := map (fun e => (fst e, map TKey (snd e))) tr in
+      (σ, obs_verify (verify (TKey k) t dts trm))
     end
   | OSameWire a b =>
     match lookup a sl, lookup b sl with
